@@ -32,12 +32,18 @@ def grids() -> Dict[str, Any]:
 class World:
     """The real objects of one history."""
 
-    def __init__(self, kind: str, holder: str):
+    def __init__(self, kind: str, holder: str, initver: int = 0):
         self.kind = kind
         self.grids = grids()
         self.objs: Dict[int, Any] = {}
         self.current = [None]
-        self.objs[1] = self.make(kind, holder)
+        t = self.objs[1] = self.make(kind, holder)
+        if initver:
+            if holder == "callable":
+                t.condition_(initver)
+            else:
+                with torch.no_grad():
+                    t.params.copy_(self.params_for(t, initver))
 
     # ------------------------------------------------------------ construction
     def cls(self):
